@@ -265,12 +265,13 @@ func positiveInLoop(l *loopInfo, s ssa.Value) bool {
 		}
 		kx, okx := constInt(bin.X)
 		ky, oky := constInt(bin.Y)
+		isS := func(v ssa.Value) bool { return v == s || sameLocalField(v, s) }
 		switch {
-		case bin.X == s && oky && ((bin.Op == token.GTR && ky >= 0) || (bin.Op == token.GEQ && ky >= 1) || (bin.Op == token.NEQ && ky == 0 && isUnsigned(s))):
+		case isS(bin.X) && oky && ((bin.Op == token.GTR && ky >= 0) || (bin.Op == token.GEQ && ky >= 1) || (bin.Op == token.NEQ && ky == 0 && isUnsigned(s))):
 			return true, true
-		case bin.Y == s && okx && ((bin.Op == token.LSS && kx >= 0) || (bin.Op == token.LEQ && kx >= 1)):
+		case isS(bin.Y) && okx && ((bin.Op == token.LSS && kx >= 0) || (bin.Op == token.LEQ && kx >= 1)):
 			return true, true
-		case bin.X == s && oky && ((bin.Op == token.LEQ && ky >= 0) || (bin.Op == token.LSS && ky >= 1)):
+		case isS(bin.X) && oky && ((bin.Op == token.LEQ && ky >= 0) || (bin.Op == token.LSS && ky >= 1)):
 			return true, false
 		}
 		return false, false
@@ -296,6 +297,17 @@ func positiveInLoop(l *loopInfo, s ssa.Value) bool {
 			}
 		} else if len(good.Preds) == 1 && (good == l.Header || good.Dominates(l.Header)) {
 			return true
+		} else if good == l.Header {
+			// the test's positive edge enters the loop directly: every other way into the header is a back edge
+			only := true
+			for _, pr := range good.Preds {
+				if pr != b && !l.Blocks[pr] {
+					only = false
+				}
+			}
+			if only {
+				return true
+			}
 		}
 	}
 	return false
@@ -869,4 +881,34 @@ func (w *World) staticReach(fn *ssa.Function) map[*ssa.Function]bool {
 		}
 	}
 	return seen
+}
+
+
+// sameLocalField: a and b are two loads of the same field of the same local struct variable that
+// is never written field-wise (e.g. a value receiver read twice: `if c.width <= 0 {...}; for ... += c.width`).
+func sameLocalField(a, b ssa.Value) bool {
+	la, ok1 := a.(*ssa.UnOp)
+	lb, ok2 := b.(*ssa.UnOp)
+	if !ok1 || !ok2 || la.Op != token.MUL || lb.Op != token.MUL {
+		return false
+	}
+	fa, ok1 := la.X.(*ssa.FieldAddr)
+	fb, ok2 := lb.X.(*ssa.FieldAddr)
+	if !ok1 || !ok2 || fa.Field != fb.Field || fa.X != fb.X {
+		return false
+	}
+	al, ok := fa.X.(*ssa.Alloc)
+	if !ok || !localStruct(al) {
+		return false
+	}
+	for _, ref := range *al.Referrers() {
+		if f, ok := ref.(*ssa.FieldAddr); ok && f.Referrers() != nil {
+			for _, r2 := range *f.Referrers() {
+				if _, isSt := r2.(*ssa.Store); isSt {
+					return false
+				}
+			}
+		}
+	}
+	return true
 }
